@@ -9,7 +9,7 @@ import json
 from aiomc.vloop import fresh_loop, release_loop
 from asyncio_taskpool import TaskPool
 
-from .memstream import Capture, Session
+from .memstream import Capture, Session, make_server
 
 WAITING = {"gather-and-close", "flush", "until-closed", "gather-and-close -r", "flush -r"}
 _REF_CACHE = {}
@@ -86,7 +86,8 @@ class CtlWorld:
                 self.pool.apply(work, args=(k,), end_callback=ecb)
             self.loop.run_idle()
         with self.cap.active():
-            self.sessions = [Session(self.loop, self.pool, 80, name=f"sess{i}") for i in range(len(scen["sessions"]))]
+            self.srv = make_server(self.pool)
+            self.sessions = [Session(self.loop, self.pool, 80, name=f"sess{i}", srv=self.srv) for i in range(len(scen["sessions"]))]
             self.loop.run_idle()
         for i, s in enumerate(self.sessions):
             hs = s.take()
